@@ -17,6 +17,18 @@ def unm {α : Type} : Except PErr α → Bool
   | .error .unmodelled => true
   | _ => false
 
+theorem unm_error {α : Type} (e : PErr) : unm (.error e : Except PErr α) = true ↔ e = .unmodelled := by
+  cases e <;> simp [unm]
+
+theorem unm_error_ty {α β : Type} (e : PErr) :
+    unm (.error e : Except PErr α) = unm (.error e : Except PErr β) := by
+  cases e <;> rfl
+
+@[simp] theorem unm_ok {α : Type} (x : α) : unm (.ok x : Except PErr α) = false := rfl
+@[simp] theorem unm_unmodelled {α : Type} : unm (.error .unmodelled : Except PErr α) = true := rfl
+@[simp] theorem okE_ok {α : Type} (x : α) : okE (.ok x : Except PErr α) = true := rfl
+@[simp] theorem okE_error {α : Type} (e : PErr) : okE (.error e : Except PErr α) = false := rfl
+
 /-! ### 1. helpers that are literally the same function -/
 
 theorem cut_eq (sep : Nat) (s : List Nat) : GoUrl.cut sep s = GoUrlFull.cut sep s := by
@@ -85,8 +97,598 @@ theorem okE_unescape_pct (mode : Mode) (hm : mode ≠ .host) (s : List Nat) :
   | case4 c rest _ hc ih =>
     unfold unescape
     have hc' : ¬ c = 37 := hc
-    simp only [hm, hc', if_false, beq_iff_eq, false_and, Bool.false_and]
     rw [← ih]
-    cases unescape mode rest <;> simp [okE]
+    cases unescape mode rest <;> simp [okE, hm, hc']
+
+theorem hostCharOk_low : ∀ c, c < 128 → GoUrl.hostCharOk c = !(shouldEscape c .host) := by
+  decide
+
+theorem hostCharOk_eq (c : Nat) :
+    GoUrl.hostCharOk c = !(decide (c < 0x80) && shouldEscape c .host) := by
+  by_cases h : c < 128
+  · rw [hostCharOk_low c h]; simp [h]
+  · have : c ≥ 128 := by omega
+    simp [GoUrl.hostCharOk, h, this]
+
+theorem unhexC_eq (c : Nat) (h : ishex c = true) : GoUrl.unhexC c = unhex c := by
+  unfold GoUrl.unhexC unhex
+  unfold ishex at h
+  rw [isDigitC_eq]
+  split
+  · rfl
+  · split
+    · rfl
+    · simp_all
+
+theorem okE_unescape_host (s : List Nat) : okE (unescape .host s) = GoUrl.hostEscOk s := by
+  fun_induction GoUrl.hostEscOk s with
+  | case1 => simp [unescape, okE]
+  | case2 a b rest ih =>
+    unfold unescape
+    simp [isHexC_eq]
+    rw [← ih]
+    by_cases h : ishex a = true ∧ ishex b = true
+    · rw [if_pos h, unhexC_eq a h.1]
+      by_cases h2 : unhex a < 8 ∧ (¬a = 50 ∨ ¬b = 53)
+      · rw [if_pos h2]
+        have : (decide (8 ≤ unhex a) || decide (a = 50) && decide (b = 53)) = false := by
+          rcases h2 with ⟨h3, h4⟩
+          have : ¬ 8 ≤ unhex a := by omega
+          rcases h4 with h4 | h4 <;> simp [this, h4]
+        simp [okE, this]
+      · rw [if_neg h2]
+        have : (decide (8 ≤ unhex a) || decide (a = 50) && decide (b = 53)) = true := by
+          by_cases h3 : 8 ≤ unhex a
+          · simp [h3]
+          · have h5 : unhex a < 8 := by omega
+            have : ¬ (¬a = 50 ∨ ¬b = 53) := fun h6 => h2 ⟨h5, h6⟩
+            have h7 : a = 50 ∧ b = 53 := by omega
+            simp [h7.1, h7.2]
+        cases unescape Mode.host rest <;> simp [okE, this, h.1, h.2]
+    · rw [if_neg h]
+      have : (ishex a && ishex b) = false := by simpa using h
+      simp [okE, this]
+  | case3 tl hx =>
+    unfold unescape
+    match tl with
+    | [] => simp [okE]
+    | [_] => simp [okE]
+    | a :: b :: r => exact absurd rfl (hx a b r)
+  | case4 c rest _ hc ih =>
+    unfold unescape
+    have hc' : ¬ c = 37 := hc
+    rw [← ih, hostCharOk_eq]
+    by_cases h : c < 128 ∧ shouldEscape c .host = true
+    · cases unescape .host rest <;> simp [okE, hc', h.1, h.2]
+    · have : (!decide (c < 128) || !shouldEscape c Mode.host) = true := by
+        by_cases h1 : c < 128
+        · have : ¬ shouldEscape c .host = true := fun h2 => h ⟨h1, h2⟩
+          simp [this]
+        · simp [h1]
+      cases unescape .host rest <;> simp [okE, hc', h, this]
+
+theorem unescape_nopct (mode : Mode) (s r : List Nat) (hs : s.contains 0x25 = false)
+    (h : unescape mode s = .ok r) : r = s := by
+  induction s generalizing r with
+  | nil => simp [unescape] at h; exact h
+  | cons c rest ih =>
+    simp only [List.contains_cons, Bool.or_eq_false_iff, beq_eq_false_iff_ne] at hs
+    have hc : ¬ c = 37 := fun e => hs.1 e.symm
+    unfold unescape at h
+    rw [if_neg hc] at h
+    split at h
+    · cases h
+    · cases h2 : unescape mode rest with
+      | error e => rw [h2] at h; cases h
+      | ok r' =>
+        rw [h2] at h
+        have := ih r' hs.2 h2
+        simp at h
+        rw [← h, this]
+
+/-! ### 4. `lastIndexOf` -/
+
+theorem lastIndexOf_go (c : Nat) (xs : List Nat) (i : Nat) (acc : Option Nat) :
+    GoUrl.lastIndexOf.go c xs i acc =
+      match GoUrlFull.lastIndexOf c xs with
+      | some j => some (i + j)
+      | none => acc := by
+  induction xs generalizing i acc with
+  | nil => simp [GoUrl.lastIndexOf.go, GoUrlFull.lastIndexOf]
+  | cons x xs ih =>
+    unfold GoUrl.lastIndexOf.go GoUrlFull.lastIndexOf
+    rw [ih]
+    cases GoUrlFull.lastIndexOf c xs with
+    | some j => simp; omega
+    | none => by_cases h : x = c <;> simp [h]
+
+theorem lastIndexOf_eq (c : Nat) (s : List Nat) : GoUrl.lastIndexOf c s = GoUrlFull.lastIndexOf c s := by
+  unfold GoUrl.lastIndexOf
+  rw [lastIndexOf_go]
+  cases GoUrlFull.lastIndexOf c s <;> simp
+
+theorem indexPct25_nopct (s : List Nat) (hs : s.contains 0x25 = false) : GoUrl.indexPct25 s = none := by
+  induction s with
+  | nil => rfl
+  | cons c rest ih =>
+    simp only [List.contains_cons, Bool.or_eq_false_iff, beq_eq_false_iff_ne] at hs
+    have hc : ¬ c = 37 := fun e => hs.1 e.symm
+    unfold GoUrl.indexPct25
+    simp [ih hs.2]
+    intro e; exact absurd e hs.1
+
+/-! ### 5. `parseHost` -/
+
+theorem parseHost_rel (host : List Nat) :
+    unm (parseHost host) = true ∨ okE (parseHost host) = GoUrl.parseHostOk host := by
+  unfold parseHost GoUrl.parseHostOk
+  simp only [lastIndexOf_eq, validOptionalPort_eq]
+  cases GoUrlFull.lastIndexOf 0x5b host with
+  | none =>
+    right
+    simp only
+    cases GoUrlFull.lastIndexOf 0x3a host with
+    | none => simp [okE_unescape_host]
+    | some i =>
+      simp only
+      by_cases hv : GoUrlFull.validOptionalPort (host.drop i) = true
+      · simp [hv, okE_unescape_host]
+      · simp [hv, okE]
+  | some ob =>
+    simp only
+    cases GoUrlFull.lastIndexOf 0x5d host with
+    | none => right; simp [okE]
+    | some cb =>
+      simp only
+      generalize List.drop (cb + 1) host = colonPort
+      generalize List.drop (ob + 1) (List.take cb host) = hostname
+      cases hvp : GoUrlFull.validOptionalPort colonPort with
+      | false => right; simp [okE]
+      | true =>
+        have h1 := okE_unescape_host colonPort
+        cases hcp : unescape Mode.host colonPort with
+        | error e =>
+          right
+          rw [hcp] at h1
+          simp [okE] at h1 ⊢
+          simp [h1]
+        | ok ucp =>
+          rw [hcp] at h1
+          simp only [okE] at h1
+          rw [← h1]
+          by_cases hlt : cb < ob + 1
+          · right
+            have : ¬ cb > ob := by omega
+            simp [okE, hlt, this]
+          · have hgt : cb > ob := by omega
+            cases hpc : hostname.contains 37 with
+            | true => left; simp [unm, hlt]
+            | false =>
+              right
+              have h2 := okE_unescape_host hostname
+              simp only [GoUrl.ipLiteralOk, indexPct25_nopct hostname hpc, hpc]
+              cases hh : unescape Mode.host hostname with
+              | error e =>
+                rw [hh] at h2
+                simp [okE] at h2 ⊢
+                simp [h2, hlt]
+              | ok uh =>
+                rw [hh] at h2
+                have := unescape_nopct _ _ _ hpc hh
+                subst this
+                simp only [okE] at h2
+                simp [← h2, hlt, hgt, okE]
+                cases parseAddrIs6 uh uh <;> simp
+
+/-! ### 6. `parseAuthority` -/
+
+theorem pctOk_cons_ne (c : Nat) (hc : ¬ c = 37) (rest : List Nat) :
+    GoUrl.pctOk (c :: rest) = GoUrl.pctOk rest := by
+  rw [GoUrl.pctOk.eq_4]
+  · intro a b r h; exact absurd h hc
+  · exact hc
+
+theorem isHex_colon : ishex 0x3a = false := by decide
+
+theorem pctOk_cut (s : List Nat) :
+    GoUrl.pctOk s =
+      (GoUrl.pctOk (GoUrlFull.cut 0x3a s).1 && GoUrl.pctOk ((GoUrlFull.cut 0x3a s).2.getD [])) := by
+  fun_induction GoUrl.pctOk s with
+  | case1 => simp [GoUrlFull.cut, GoUrl.pctOk]
+  | case2 a b rest ih =>
+    by_cases ha : a = 0x3a
+    · subst ha; simp [GoUrlFull.cut, GoUrl.pctOk, isHexC_eq, isHex_colon]
+    · by_cases hb : b = 0x3a
+      · subst hb; simp [GoUrlFull.cut, GoUrl.pctOk, isHexC_eq, isHex_colon, ha]
+      · simp [GoUrlFull.cut, ha, hb, GoUrl.pctOk]
+        rw [ih]
+        simp [Bool.and_assoc]
+  | case3 tl hx =>
+    match tl with
+    | [] => simp [GoUrlFull.cut, GoUrl.pctOk]
+    | [a] => by_cases ha : a = 0x3a <;> simp [GoUrlFull.cut, GoUrl.pctOk, ha]
+    | a :: b :: r => exact absurd rfl (hx a b r)
+  | case4 c rest _ hc ih =>
+    have hc' : ¬ c = 37 := hc
+    by_cases h : c = 0x3a
+    · subst h; simp [GoUrlFull.cut, GoUrl.pctOk]
+    · simp [GoUrlFull.cut, h, pctOk_cons_ne c hc']
+      exact ih
+
+theorem parseAuthority_rel (a : List Nat) :
+    unm (parseAuthority a) = true ∨ okE (parseAuthority a) = GoUrl.parseAuthorityOk a := by
+  unfold parseAuthority GoUrl.parseAuthorityOk
+  simp only [lastIndexOf_eq, validUserinfo_eq]
+  cases GoUrlFull.lastIndexOf 0x40 a with
+  | none =>
+    simp only
+    rcases parseHost_rel a with h | h
+    · left
+      cases hp : parseHost a with
+      | ok x => rw [hp] at h; simp at h
+      | error e => rw [hp] at h; have := (unm_error e).1 h; subst this; simp
+    · right; rw [← h]; cases hp : parseHost a <;> simp [okE]
+  | some i =>
+    simp only
+    generalize List.drop (i + 1) a = hs
+    generalize List.take i a = ui
+    rcases parseHost_rel hs with h | h
+    · left
+      cases hp : parseHost hs with
+      | ok x => rw [hp] at h; simp at h
+      | error e => rw [hp] at h; have := (unm_error e).1 h; subst this; simp
+    · rw [← h]
+      right
+      cases hp : parseHost hs with
+      | error e => simp [okE]
+      | ok host =>
+        simp only [okE, Bool.true_and]
+        cases hv : GoUrlFull.validUserinfo ui with
+        | false => simp
+        | true =>
+          simp only [Bool.true_and, Bool.not_true, Bool.false_eq_true, if_false]
+          have hu := okE_unescape_pct .userPassword (by decide)
+          cases hc : ui.contains 0x3a with
+          | false =>
+            simp only [Bool.not_false, if_true]
+            rw [← hu ui]
+            cases unescape Mode.userPassword ui <;> simp [okE]
+          | true =>
+            simp only [Bool.not_true, Bool.false_eq_true, if_false]
+            rw [pctOk_cut ui, ← hu, ← hu]
+            cases unescape Mode.userPassword (GoUrlFull.cut 0x3a ui).1 with
+            | error e => simp [okE]
+            | ok un =>
+              cases unescape Mode.userPassword ((GoUrlFull.cut 0x3a ui).2.getD []) <;> simp [okE]
+
+/-! ### 7. the cuts of `parse`, `setPath`, `setFragment` -/
+
+theorem cut_append_sep (c : Nat) (ys : List Nat) (h : ys.contains c = false) :
+    GoUrlFull.cut c (ys ++ [c]) = (ys, some []) := by
+  induction ys with
+  | nil => simp [GoUrlFull.cut]
+  | cons y ys ih =>
+    simp only [List.contains_cons, Bool.or_eq_false_iff, beq_eq_false_iff_ne] at h
+    have hy : ¬ y = c := fun e => h.1 e.symm
+    simp [GoUrlFull.cut, hy, ih h.2]
+
+theorem countByte_zero (c : Nat) (ys : List Nat) (h : countByte c ys = 0) : ys.contains c = false := by
+  induction ys with
+  | nil => rfl
+  | cons y ys ih =>
+    unfold countByte at h ih
+    by_cases hy : y = c
+    · subst hy; simp at h
+    · have hy' : ¬ c = y := fun e => hy e.symm
+      simp [hy] at h
+      simp [hy']
+      simpa using ih (by simpa using h)
+
+theorem queryCut_fst (r : List Nat) : (queryCut r).1 = (GoUrlFull.cut 0x3f r).1 := by
+  unfold queryCut
+  split
+  · rename_i h
+    simp only [Bool.and_eq_true, beq_iff_eq] at h
+    obtain ⟨ys, rfl⟩ := List.getLast?_eq_some_iff.1 h.1
+    have h2 := h.2
+    have : countByte 0x3f ys = 0 := by
+      unfold countByte at h2 ⊢
+      simp [List.filter_append] at h2
+      simpa using h2
+    rw [cut_append_sep _ _ (countByte_zero _ _ this)]
+    simp
+  · rfl
+
+/-- the path that follows the authority -/
+def pathOf : Option (List Nat) → List Nat
+  | some t => 0x2f :: t
+  | none => []
+
+theorem authCut_cons (x : Nat) (xs : List Nat) :
+    authCut (x :: xs) = if x = 0x2f then ([], x :: xs) else (x :: (authCut xs).1, (authCut xs).2) := by
+  unfold authCut
+  by_cases h : x = 0x2f
+  · simp [indexOf, h]
+  · simp only [indexOf, h, if_false]
+    cases indexOf 0x2f xs <;> simp
+
+theorem authCut_eq (a : List Nat) :
+    authCut a = ((GoUrlFull.cut 0x2f a).1, pathOf (GoUrlFull.cut 0x2f a).2) := by
+  induction a with
+  | nil => simp [authCut, indexOf, GoUrlFull.cut, pathOf]
+  | cons x xs ih =>
+    rw [authCut_cons]
+    by_cases h : x = 0x2f
+    · simp [h, GoUrlFull.cut, pathOf]
+    · simp [h, GoUrlFull.cut, ih]
+
+theorem okE_setPath (u : URL) (p : List Nat) : okE (setPath u p) = GoUrl.pctOk p := by
+  unfold setPath
+  rw [← okE_unescape_pct .path (by decide) p]
+  cases unescape .path p <;> simp
+
+theorem unm_setPath (u : URL) (p : List Nat) : unm (setPath u p) = false := by
+  unfold setPath
+  have := unm_unescape .path p
+  cases h : unescape .path p with
+  | ok x => simp
+  | error e => rw [h] at this; simp only; rw [unm_error_ty (β := Str)]; exact this
+
+theorem setPath_scheme (u u' : URL) (p : List Nat) (h : setPath u p = .ok u') : u'.scheme = u.scheme := by
+  unfold setPath at h
+  cases h2 : unescape .path p with
+  | ok x => rw [h2] at h; simp at h; rw [← h]
+  | error e => rw [h2] at h; simp at h
+
+theorem okE_setFragment (u : URL) (p : List Nat) : okE (setFragment u p) = GoUrl.pctOk p := by
+  unfold setFragment
+  rw [← okE_unescape_pct .fragment (by decide) p]
+  cases unescape .fragment p <;> simp
+
+theorem unm_setFragment (u : URL) (p : List Nat) : unm (setFragment u p) = false := by
+  unfold setFragment
+  have := unm_unescape .fragment p
+  cases h : unescape .fragment p with
+  | ok x => simp
+  | error e => rw [h] at this; simp only; rw [unm_error_ty (β := Str)]; exact this
+
+theorem setFragment_scheme (u u' : URL) (p : List Nat) (h : setFragment u p = .ok u') :
+    u'.scheme = u.scheme := by
+  unfold setFragment at h
+  cases h2 : unescape .fragment p with
+  | ok x => rw [h2] at h; simp at h; rw [← h]
+  | error e => rw [h2] at h; simp at h
+
+/-! ### 8. `parse(u, false)` -/
+
+/-- the two models agree on a result: the full model declines, or both fail, or both succeed with schemes
+    that are empty together -/
+def Rel (r : Except PErr URL) (o : Option (List Nat)) : Prop :=
+  unm r = true ∨
+    (okE r = o.isSome ∧ ∀ u sch, r = .ok u → o = some sch → u.scheme.isEmpty = sch.isEmpty)
+
+theorem Rel_error (e : PErr) : Rel (.error e) none := by
+  right; constructor
+  · simp
+  · intro u sch h; cases h
+
+theorem Rel_ok (u : URL) (sch : List Nat) (h : u.scheme.isEmpty = sch.isEmpty) : Rel (.ok u) (some sch) := by
+  right; constructor
+  · simp
+  · intro u' sch' h1 h2; cases h1; cases h2; exact h
+
+theorem Rel_setPath (u : URL) (p sch : List Nat) (h : u.scheme.isEmpty = sch.isEmpty) :
+    Rel (setPath u p) (if GoUrl.pctOk p then some sch else none) := by
+  right; constructor
+  · rw [okE_setPath]; cases GoUrl.pctOk p <;> simp
+  · intro u' sch' h1 h2
+    rw [setPath_scheme u u' p h1, h]
+    cases hp : GoUrl.pctOk p <;> simp [hp] at h2
+    rw [h2]
+
+theorem startsWith_eq (p s : List Nat) : GoUrl.startsWith p s = GoUrlFull.startsWith p s := rfl
+
+/-- the body of `GoUrl.parseNoFrag` after `getScheme` -/
+def oldRest (scheme rest0 : List Nat) : Option (List Nat) :=
+  let rest := (GoUrlFull.cut 0x3f rest0).1
+  if !startsWith [0x2f] rest then
+    if !scheme.isEmpty then some scheme
+    else if ((GoUrlFull.cut 0x2f rest).1).contains 0x3a then none
+    else (if GoUrl.pctOk rest then some scheme else none)
+  else if (!scheme.isEmpty || !startsWith [0x2f, 0x2f, 0x2f] rest) && startsWith [0x2f, 0x2f] rest then
+    if GoUrl.parseAuthorityOk (GoUrlFull.cut 0x2f (rest.drop 2)).1 &&
+        GoUrl.pctOk (pathOf (GoUrlFull.cut 0x2f (rest.drop 2)).2) then some scheme else none
+  else if GoUrl.pctOk rest then some scheme else none
+
+theorem parseNoFrag_old (u : List Nat) :
+    GoUrl.parseNoFrag u =
+      if hasCTL u then none
+      else if u = [0x2a] then some []
+      else match getScheme u with
+        | none => none
+        | some (scheme, rest0) => oldRest scheme rest0 := by
+  unfold GoUrl.parseNoFrag oldRest
+  simp only [cut_eq, hasCTL_eq, getScheme_eq, startsWith_eq]
+  by_cases h1 : hasCTL u = true
+  · simp [h1]
+  · by_cases h2 : u = [0x2a]
+    · simp [h2]
+    · simp only [h1, h2, if_false]
+      cases hg : getScheme u with
+      | none => rfl
+      | some pr =>
+        obtain ⟨scheme, rest0⟩ := pr
+        simp only
+        generalize (GoUrlFull.cut 0x3f rest0).1 = rest
+        rcases hc : GoUrlFull.cut 0x2f (List.drop 2 rest) with ⟨authority, tail⟩
+        cases tail <;> simp [pathOf]
+
+theorem startsWith2_1 (rest : List Nat) (h : startsWith [0x2f] rest = false) :
+    startsWith [0x2f, 0x2f] rest = false := by
+  cases rest with
+  | nil => rfl
+  | cons c r =>
+    simp only [startsWith, List.isPrefixOf, Bool.and_true, beq_eq_false_iff_ne, ne_eq] at h
+    have : (47 == c) = false := by simpa using h
+    simp [startsWith, List.isPrefixOf, this]
+
+theorem parseRest_rel (sch' scheme rest0 : List Nat) (he : sch'.isEmpty = scheme.isEmpty) :
+    Rel (parseRest sch' rest0) (oldRest scheme rest0) := by
+  unfold parseRest oldRest
+  simp only [queryCut_fst]
+  generalize (GoUrlFull.cut 0x3f rest0).1 = rest
+  generalize (queryCut rest0).2.1 = fq
+  generalize (queryCut rest0).2.2 = rq
+  cases hs : startsWith [0x2f] rest with
+  | false =>
+    cases hse : scheme.isEmpty with
+    | false =>
+      rw [hse] at he
+      simp only [he, Bool.not_false, Bool.and_self, if_true]
+      exact Rel_ok _ _ (by simp [he, hse])
+    | true =>
+      rw [hse] at he
+      simp only [he, Bool.not_false, Bool.not_true, Bool.and_false, Bool.false_eq_true, if_false, if_true,
+        Bool.true_and, Bool.false_or, startsWith2_1 rest hs, Bool.and_false]
+      cases hcol : ((GoUrlFull.cut 0x2f rest).1).contains 0x3a with
+      | true => simp only [if_true]; exact Rel_error _
+      | false =>
+        simp only [Bool.false_eq_true, if_false]
+        exact Rel_setPath _ _ _ (by simp [he, hse])
+  | true =>
+    simp only [Bool.not_true, Bool.false_and, Bool.false_eq_true, if_false]
+    rw [he]
+    split
+    · rw [authCut_eq]
+      simp only
+      generalize (GoUrlFull.cut 0x2f (List.drop 2 rest)).1 = auth
+      generalize pathOf (GoUrlFull.cut 0x2f (List.drop 2 rest)).2 = path
+      rcases parseAuthority_rel auth with h | h
+      · left
+        cases hp : parseAuthority auth with
+        | ok x => rw [hp] at h; simp at h
+        | error e => rw [hp] at h; have := (unm_error e).1 h; subst this; simp
+      · rw [← h]
+        cases hp : parseAuthority auth with
+        | error e => simp only [okE_error, Bool.false_and, Bool.false_eq_true, if_false]; exact Rel_error _
+        | ok x =>
+          obtain ⟨user, host⟩ := x
+          simp only [okE_ok, Bool.true_and]
+          exact Rel_setPath _ _ _ (by simp [he])
+    · exact Rel_setPath _ _ _ (by simp [he])
+
+theorem parseNoFrag_rel (u : List Nat) : Rel (GoUrlFull.parseNoFrag u) (GoUrl.parseNoFrag u) := by
+  rw [parseNoFrag_old]
+  unfold GoUrlFull.parseNoFrag
+  by_cases h1 : hasCTL u = true
+  · simp only [h1, if_true]; exact Rel_error _
+  · by_cases h2 : u = [0x2a]
+    · simp only [h2, if_true]; exact Rel_ok _ _ rfl
+    · simp only [h1, h2, if_false]
+      cases hg : getScheme u with
+      | none => exact Rel_error _
+      | some pr =>
+        obtain ⟨scheme, rest0⟩ := pr
+        exact parseRest_rel _ _ _ (by simp)
+
+/-! ### `url.Parse` -/
+
+/-- acceptance and `IsAbs` of a result of the full model -/
+def absE : Except PErr URL → Bool
+  | .ok u => u.isAbs
+  | .error _ => false
+
+theorem parse_main (s : List Nat) (h : unm (parse s) = false) :
+    GoUrl.parseOk s = okE (parse s) ∧ GoUrl.parseAbsOk s = absE (parse s) := by
+  unfold GoUrl.parseOk GoUrl.parseAbsOk
+  unfold parse at h ⊢
+  rw [cut_eq]
+  rcases hc : GoUrlFull.cut 0x23 s with ⟨u, frag⟩
+  rw [hc] at h
+  simp only at h ⊢
+  rcases parseNoFrag_rel u with hr | ⟨hr1, hr2⟩
+  · exfalso
+    cases hp : GoUrlFull.parseNoFrag u with
+    | ok x => rw [hp] at hr; simp at hr
+    | error e =>
+      rw [hp] at hr h
+      have := (unm_error e).1 hr
+      subst this
+      simp at h
+  · cases hp : GoUrlFull.parseNoFrag u with
+    | error e =>
+      rw [hp] at hr1
+      cases ho : GoUrl.parseNoFrag u with
+      | some sch => rw [ho] at hr1; simp at hr1
+      | none => simp [absE]
+    | ok x =>
+      rw [hp] at hr1
+      cases ho : GoUrl.parseNoFrag u with
+      | none => rw [ho] at hr1; simp at hr1
+      | some sch =>
+        have hsch := hr2 x sch hp ho
+        simp only
+        cases frag with
+        | none => simp [absE, URL.isAbs, hsch]
+        | some f =>
+          simp only
+          by_cases hf : f.isEmpty = true
+          · have : f = [] := by simpa using hf
+            subst this
+            simp [absE, URL.isAbs, hsch, GoUrl.pctOk]
+          · simp only [hf]
+            rw [← okE_setFragment x f]
+            cases hsf : setFragment x f with
+            | error e => simp [absE]
+            | ok x' =>
+              have := setFragment_scheme x x' f hsf
+              simp [absE, URL.isAbs, this, hsch]
+
+theorem fullUnmodelled_eq (s : List Nat) : RdfModel.IriUnify.fullUnmodelled s = unm (parse s) := by
+  unfold RdfModel.IriUnify.fullUnmodelled
+  cases parse s with
+  | ok u => rfl
+  | error e => cases e <;> rfl
+
+theorem fullOk_eq (s : List Nat) : RdfModel.IriUnify.fullOk s = okE (parse s) := by
+  unfold RdfModel.IriUnify.fullOk
+  cases parse s <;> rfl
+
+theorem fullAbsOk_eq (s : List Nat) : RdfModel.IriUnify.fullAbsOk s = absE (parse s) := by
+  unfold RdfModel.IriUnify.fullAbsOk
+  cases parse s <;> rfl
+
+/-- `GoUrl.parseAbsOk` (acceptance model) = acceptance + `IsAbs` of the full model, wherever the full model
+    answers -/
+theorem parseAbsOk_eq_full (s : List Nat) (h : RdfModel.IriUnify.fullUnmodelled s = false) :
+    RdfModel.GoUrl.parseAbsOk s = RdfModel.IriUnify.fullAbsOk s := by
+  rw [fullUnmodelled_eq] at h
+  rw [fullAbsOk_eq]
+  exact (parse_main s h).2
+
+/-- `GoUrl.parseOk` (acceptance model) = acceptance of the full model, wherever the full model answers -/
+theorem parseOk_eq_full (s : List Nat) (h : RdfModel.IriUnify.fullUnmodelled s = false) :
+    RdfModel.GoUrl.parseOk s = RdfModel.IriUnify.fullOk s := by
+  rw [fullUnmodelled_eq] at h
+  rw [fullOk_eq]
+  exact (parse_main s h).1
+
+/-- the byte-level acceptance the decoders use IS the acceptance model, unconditionally -/
+theorem absOkBytes_eq (s : List Nat) :
+    RdfModel.IriUnify.absOkBytes s = RdfModel.GoUrl.parseAbsOk s := by
+  cases hu : RdfModel.IriUnify.fullUnmodelled s with
+  | false =>
+    rw [parseAbsOk_eq_full s hu]
+    unfold RdfModel.IriUnify.fullUnmodelled at hu
+    unfold RdfModel.IriUnify.absOkBytes RdfModel.IriUnify.fullAbsOk
+    cases hp : parse s with
+    | ok u => rfl
+    | error e => rw [hp] at hu; cases e <;> first | rfl | simp at hu
+  | true =>
+    unfold RdfModel.IriUnify.fullUnmodelled at hu
+    unfold RdfModel.IriUnify.absOkBytes
+    cases hp : parse s with
+    | ok u => rw [hp] at hu; simp at hu
+    | error e => rw [hp] at hu; cases e <;> first | rfl | simp at hu
 
 end RdfModel.Proofs.IriUnify
